@@ -1,7 +1,7 @@
 (* C02 property theorems. This file contains only statements closed by
    [exact lemma] and Print Assumptions. *)
 From V Require Import Common.Base C02.Graph C02.Order C02.SpecESM C02.Wrap C02.Resolve C02.ResolveSpec
-  C02.DataUrl C02.SpecDataUrl C02.OrderProofs C02.OrderEsmProofs C02.ResolveProofs C02.WrapProofs C02.DataUrlProofs C02.ClassifyProofs C02.Emit C02.EmitProofs C02.ResolveChainProofs C02.ScanEsmProofs C02.ResolveDen C02.SpecDenProofs C02.StarHitsProofs C02.StarDenProofs.
+  C02.DataUrl C02.SpecDataUrl C02.OrderProofs C02.OrderEsmProofs C02.ResolveProofs C02.WrapProofs C02.DataUrlProofs C02.ClassifyProofs C02.Emit C02.EmitProofs C02.ResolveChainProofs C02.ScanEsmProofs C02.ResolveDen C02.SpecDenProofs C02.StarHitsProofs C02.StarDenProofs C02.LinkDenProofs C02.ResolveStarsProofs.
 From Coq Require Import Permutation.
 
 (* every file of the chunk is emitted at most once ("every module body runs at most once") *)
@@ -79,11 +79,10 @@ Print Assumptions resolve_is_spec_refuted_exportless.
 (* partial, bounded-exhaustive (finite domains, by computation): outside the
    refuted re-export-cycle shape the linker's verdict (found binding / not found /
    ambiguous) equals ResolveExport's for every import of
-   - all 18000 graphs of three files over one export name (each name absent,
-     local or re-exported from any file; export stars to any subset of the
-     files in either order for two of the files), and
-   - all 32400 graphs of two files over two export names with renaming
-     re-exports.  Missing: the statement for unbounded graphs. *)
+   all 18000 graphs of three files over one export name (each name absent, local or
+   re-exported from any file; export stars to any subset of the files in either order for two
+   of the files).  Unlike resolve_is_spec_partial below this domain contains CYCLES of export
+   stars (only cycles through an indirect export are excluded). *)
 Theorem resolve_is_spec_partial_bounded3 : forall fs, In fs domain1 ->
   let g := graph_of [1; 2; 3]%nat [1] fs in
   indirect_acyclic g = true ->
@@ -91,12 +90,6 @@ Theorem resolve_is_spec_partial_bounded3 : forall fs, In fs domain1 ->
 Proof. exact (bounded_domain _ _ _ domain1_ok). Qed.
 Print Assumptions resolve_is_spec_partial_bounded3.
 
-Theorem resolve_is_spec_partial_bounded2 : forall fs, In fs domain2 ->
-  let g := graph_of [1; 2]%nat [1; 2] fs in
-  indirect_acyclic g = true ->
-  forall ni, In ni (m_imports (getm g (S (length fs)))) -> agrees g (seq 0 (length g)) (S (length fs)) ni = true.
-Proof. exact (bounded_domain _ _ _ domain2_ok). Qed.
-Print Assumptions resolve_is_spec_partial_bounded2.
 
 (* after scanImportsAndExports steps 1-2 wrapping is closed under imports:
    every file imported (by any import record) by a wrapped file is wrapped;
@@ -261,3 +254,20 @@ Theorem default_is_module_exports_refuted : exists typed form marker,
   to_esm_default (to_esm_node_mode typed form) marker <> native_default.
 Proof. exists false, IFDynamic, true. exact (untyped_marker_default IFDynamic). Qed.
 Print Assumptions default_is_module_exports_refuted.
+
+(* resolve_is_spec_partial: for ALL finite graphs in the boolean scope [star_scope g rk] - ES modules
+   with plain import records; named imports target files with an export statement (excludes
+   refuted shape C); a rank certificate [rk] for the re-export relation of export stars and
+   indirect exports (excludes refuted shape B, the re-export cycle, and with it cycles of export
+   stars); distinct export aliases per file; every indirect export entry resolves - the verdict
+   of the linker (scanImportsAndExports steps 1-2, ResolvedExports with export stars, shadowing and
+   potentially ambiguous refs, matchImportWithExport with its all-results-equal test) for an
+   import is the one ECMA-262 ResolveExport gives: the same binding, "no matching export", or
+   "ambiguous".  Unbounded in the number of files, names, star levels and diamonds.
+   Not covered: graphs with cycles of export stars (bounded domain above), CommonJS files. *)
+Theorem resolve_is_spec_partial : forall g rk order s ni v1 v2,
+  star_scope g rk = true ->
+  import_of g (s, ni_ref ni) = Some ni ->
+  link_verdict g order s ni = Some v1 -> spec_verdict g s ni = Some v2 -> v1 = v2.
+Proof. intros g rk order s ni v1 v2 Hs. exact (stars_link_agree g rk Hs order s ni v1 v2). Qed.
+Print Assumptions resolve_is_spec_partial.
